@@ -47,6 +47,7 @@ pub fn dispatch(t: &[&str]) -> String {
         .or_else(|| crate::ops_c25::dispatch(t))
         .or_else(|| crate::ops_c23::dispatch(t))
         .or_else(|| crate::ops_c11::dispatch(t))
+        .or_else(|| crate::ops_c22::dispatch(t))
         // ADD-OPS-HERE (one `.or_else(|| crate::ops_cNN::dispatch(t))` line per module)
         .unwrap_or_else(|| "bad-op".into())
 }
